@@ -537,6 +537,14 @@ def install():
                 # (when nothing was released -- every eligible child had been cancelled beforehand -- no branch runs and the
                 # join is starved: its cancellation is the downstream closure of C06, not a fault of the resolution)
                 if blk["cond"] == r["name"] and released and blk["terminal"] in [t.name for t in cancelled]:
+                    taken = next((br for br in blk["branches"] if br["entry"] == released[0].name), None)
+                    recs_here = {x["name"]: x for x in ctx.tasks.values() if x["graph"] == r["graph"]}
+                    if taken is not None and any(recs_here.get(n, {}).get("state") == "CANCELLED" for n in taken["nodes"]
+                                                 if n != released[0].name):
+                        # a task further down the TAKEN branch had been cancelled before (dropped or cancelled by the policy):
+                        # the join can no longer receive its input and its cancellation is the downstream closure of C06
+                        ctx.count("join_cancelled_because_taken_branch_was_cut")
+                        continue
                     empty = [br for br in blk["branches"] if br.get("empty")]
                     taken_is_empty = bool(released) and released[0].name == blk["terminal"]
                     ctx.violate("C07", "join_cancelled_by_branch_resolution",
